@@ -47,7 +47,7 @@ def pack_enum(k, pack):
     return packs
 
 
-def switch_skeletons(pack):
+def switch_skeletons(pack, full=True):
     """Exhaustive: every 3-way choice over a pool of alternative shapes that matter to the -switch rewrite
     (nullable heads, nested choices with a nullable last alternative, lookahead-first, ranges, repetitions,
     rule references, captures, actions)."""
@@ -59,7 +59,7 @@ def switch_skeletons(pack):
             ('seq', [('alt', [('chr', 'd'), ('q', ('chr', 'e'))], False), ('chr', 'f')]),
             ('seq', [('q', ('chr', 'g')), ('chr', 'h')]),
             ('seq', [('and', ('chr', 'i')), ('chr', 'i')]),
-            ('seq', [('not', ('chr', 'j')), ('dot',)]),
+            ('seq', [('not', ('chr', 'j')), ('rng', 'j', 'w')]),
             ('seq', [('star', ('chr', 'k')), ('chr', 'l')]),
             ('seq', [('alt', [('chr', 'm'), ('chr', 'n')], False), ('chr', 'o')]),
             ('seq', [('name', x), ('chr', 'z')]),
@@ -68,7 +68,8 @@ def switch_skeletons(pack):
             ('seq', [('act', 0), ('chr', 's')]),
         ]
     n = len(pool(0))
-    combos = [(a, b, c) for a in range(n) for b in range(n) for c in range(n)]
+    idx = list(range(n)) if full else [0, 1, 2, 3, 4, 6, 8, 11]
+    combos = [(a, b, c) for a in idx for b in idx for c in idx]
     packs = []
     for i in range(0, len(combos), pack):
         chunk = combos[i:i + pack]
@@ -93,7 +94,7 @@ def grammars(tier, seed, name='core'):
             out.append(('w%d' % i, GG.gen_grammar(seed, i, 'switch'), 'switchshape'))
         for i in range(cfg['random'] // 2):
             out.append(('r%d' % i, GG.gen_grammar(seed, i, 'core'), 'random'))
-        for i, g in enumerate(switch_skeletons(144)):
+        for i, g in enumerate(switch_skeletons(128, full=(tier == 'thorough'))):
             out.append(('k%d' % i, g, 'skeleton'))
         return out
     for i in range(cfg['random']):
@@ -215,7 +216,9 @@ def run_sweep(T, tier, seed, optsets, name='core'):
             if kind in ('enum', 'skeleton') and ei == 0:
                 continue
             ins = inputs if (ei == 0 or kind in ('enum', 'skeleton')) else inputs[:20]
-            for memo in ([True, False] if 'n' not in o else [True]):
+            if kind == 'skeleton' and o not in ('', 's'):
+                continue      # the other option sets of the skeleton packs are compared by T-emit only
+            for memo in ([True, False] if ('n' not in o and kind != 'skeleton') else [True]):
                 for ii, s in enumerate(ins):
                     k = '%s|%s|%d|%d' % (rid, e, 1 if memo else 0, ii)
                     cases.append({'pkg': rid, 'k': k, 'entry': e, 'memo': memo, 'b64': L.b64(s)})
